@@ -179,7 +179,7 @@ func p12GenSignature(r *rng, st map[string]int, storableResults bool) string {
 }
 
 var p12FnNames = []string{"f", "Add", "sum_avx2", "Σ", "mul", "X", "dot_product", "_priv", "αβγ"}
-var p12DocPool = []string{"f does things.", "", "100% of %d", "  indented code", "trailing  ", "# Heading", " - item", "Deprecated: no.", "café", "//go:nosplit", "go:build x", "%s %v %", "a\tb", "1. first", "[Link]: https://x.y", "* star", "\tx := 1"}
+var p12DocPool = []string{"f does things.", "", "100% of %d", "  indented code", "trailing  ", "# Heading", " - item", "Deprecated: no.", "café", "//go:nosplit", "go:build x", "%s %v %", "a\tb", "1. first", "[Link]: https://x.y", "* star", "\tx := 1", "nbsp\u00a0", "zwsp\u200b", "em\u2003", "nel\u0085"}
 
 type p12Fn struct {
 	name string
